@@ -7,7 +7,7 @@
 # Scratch output goes to a temp dir that is removed at the end; /verif/evidence is not touched.
 set -u
 cd "$(dirname "$0")/.."
-BIN=/verif/gensim/target/release/gensim
+BIN="$PWD/gensim/target/release/gensim"
 OUT=$(mktemp -d /tmp/c18-sens.XXXXXX)
 trap 'git -C /repo checkout -- . 2>/dev/null; rm -rf "$OUT"' EXIT
 if [ -n "$(git -C /repo status --porcelain --untracked-files=no)" ]; then
